@@ -7,8 +7,9 @@ import io
 
 from rv import graphlib as GL
 
-NAMES = ["Foo.Bar", "foo-baz", "zope.interface", "a", "lib3_core", "PyYAML", "x-y.z", "via-lib", "backports.ssl-match-hostname", "B2"]
-VERS = ["1.0", "2.0.post1", "1!3.0", "1.0+local.1", "0.1a1", "2012.4", "3.0.0"]
+NAMES = ["Foo.Bar", "foo-baz", "zope.interface", "a", "lib3_core", "PyYAML", "x-y.z", "via-lib", "backports.ssl-match-hostname", "B2",
+         "corp-platform-datalake-analytics-connectors"]
+VERS = ["1.0", "2.0.post1", "1!3.0", "1.0+local.1", "0.1a1", "2012.4", "3.0.0", "2024.10.1.post3+corp.build.7"]
 INPUT_NAMES = ["requirements.in", "reqs/base.txt", "requirements/dev.in", "constraints.out", "./r.txt"]
 
 
